@@ -81,6 +81,11 @@ def build_corpus(tier, rng):
         Variant("B", "tuple", [Field("u8")], [doc(" first"), raw('doc(alias = "bee")'), doc(" second"), msg("m-b"), ser("bee")]),
         Variant("C", "unit", [], [raw("allow(dead_code)"), raw("doc(hidden)"), DISABLED, msg("never")]),
         Variant("D", "named", [Field("u8", "x")], [msg("m-d"), raw("doc(hidden)"), det("d-d"), doc(" tail doc")])])))
+    # an EMPTY literal is a literal: Some("") is not None and not the fallback
+    items.append(("empty-literals", Item("E", [
+        Variant("A", "unit", [], [msg("short"), det("")]), Variant("B", "tuple", [Field("u8")], [det("")]), Variant("C", "unit", [], [msg("")]),
+        Variant("D", "named", [Field("u8", "x")], [msg(""), det("")]), Variant("F", "unit", [], [msg(""), det("long"), doc("")]),
+        Variant("G", "unit", [], [doc(""), doc(""), det(" ")])])))
     items.append(("case-spellings", Item("E", [Variant("A", "unit", [], [ser("mb"), tos("MB"), aci(False)]), Variant("B", "tuple", [Field("u8")], [ser("kb"), ser("Kb"), ser("KB"), aci(True, explicit=False)]),
                                                Variant("C", "unit", [], [DISABLED, ser("x"), ser("X"), det("never"), msg("never")])])))
     G.resolve_names(ID, [it for _, it in items])
